@@ -212,6 +212,16 @@ def judge(prop, unit, inp):
     out = base64.b64decode(real.get("out_b64", ""))
     det["real"]["out_len"] = len(out)
     ok_return = real["outcome"] == "return" and real.get("result") is not False
+    if tool == "unsquash" and prop == "C19":
+        if real["outcome"] == "return":
+            got = base64.b64decode(real.get("result_b64", ""))
+            if opts["count"] > len(data):
+                det["mismatch"] = "a record announced as %d bytes but only %d present was decoded without error" % (opts["count"], len(data))
+                return True, det
+            if len(got) > opts["orig_len"]:
+                det["mismatch"] = "record longer than its nominal length"
+                return True, det
+        return False, det
     if tool == "unsquash":
         exp = ref.ref_unsquash(data, opts["count"], opts["orig_len"]) if opts["count"] <= len(data) else None
         if exp is None:
@@ -234,6 +244,10 @@ def judge(prop, unit, inp):
         r = ref.ref_max(data, opts.get("arte", 0), opts.get("newsroom", False), opts.get("cols", 256), opts.get("rows"), opts.get("skip"))
     else:
         r = None
+    kc = known_case(tool, data, opts, ref)
+    if kc:
+        det["note"] = "the model input falls into the recorded known finding %s; a failure there is not a new violation" % kc
+        return False, det
     if prop in ("C16", "C17"):
         if r is None:
             det["note"] = "model input is not a well-formed / valid file for the executable specification"
@@ -243,6 +257,32 @@ def judge(prop, unit, inp):
         if not ok_return:
             det["mismatch"] = "real decoder failed on a well-formed file"
             return True, det
+        if out != exp and tool == "rattoppm":
+            # known finding KF-C17-RAT-low-nibble-mask: ignore differences at second pixels of bytes whose low nibble is >= 8
+            hdr = len(exp) - len(r[2])
+            diff = [i for i in range(min(len(out), len(exp))) if out[i] != exp[i]]
+            if len(out) == len(exp) and all(((i - hdr) // 3) % 2 == 1 for i in diff):
+                det["note"] = "differences only at low-nibble pixels: recorded known finding KF-C17-RAT-low-nibble-mask"
+                # a different mask than the recorded `& 7` still shows up: check the recorded behaviour exactly
+                img_ok = True
+                body = out[hdr:]
+                rr = ref.ref_rat(data)
+                if rr is not None:
+                    pal = list(data[3:19])
+                    # rebuild the image bytes from the reference and test that every second pixel is palette[b & 7]
+                    pos, esc, imgb = 19, data[0], bytearray()
+                    while len(imgb) < 199 * 160:
+                        t = data[pos]
+                        if t != esc:
+                            imgb.append(t); pos += 1
+                        else:
+                            imgb += bytes([data[pos + 2]]) * data[pos + 1]; pos += 3
+                    for j, b in enumerate(imgb):
+                        if body[6 * j + 3:6 * j + 6] != ref.px6(pal[b & 7]):
+                            img_ok = False
+                            det["mismatch"] = "second pixel of image byte %d (0x%02x) is neither palette[b & 15] nor the recorded palette[b & 7]" % (j, b)
+                            break
+                return (not img_ok), det
         if out != exp:
             k = next((i for i in range(min(len(out), len(exp))) if out[i] != exp[i]), min(len(out), len(exp)))
             det["mismatch"] = "first differing output byte at offset %d (real %s, expected %s)" % (
@@ -274,6 +314,31 @@ def judge(prop, unit, inp):
         det["mismatch"] = "real decoder failed on a well-formed file"
         return True, det
     return False, det
+
+
+def known_case(tool, data, opts, ref):
+    """Is this concrete input inside a case recorded in known_findings.json?  (The proof side excludes these cases
+    through the `when` clauses of the contracts; the replay side must not 'confirm' a failure with one of them.)"""
+    if tool == "hrstoppm" and opts.get("width", 320) % 2 == 1:
+        return "KF-C18-HRS-odd-width"
+    if tool == "maxtoppm":
+        dm = ref.max_dims(data, opts.get("newsroom", False), opts.get("cols", 256), opts.get("rows"), opts.get("skip"))
+        if dm is not None:
+            w, h, hs = dm
+            if w % 8:
+                return "KF-C18-MAX-width-not-multiple-of-8"
+            if len(data) - (opts.get("skip") or 0) - hs < (w // 8) * h:
+                return "KF-C19-MAX-short-rows"
+    if tool == "pixtopgm":
+        side = ref.isqrt(2 * len(data))
+        if side * side != 2 * len(data):
+            return "KF-C19-PIX-non-square-size"
+    if tool == "mgetoppm" and len(data) > 18 and data[18] == 0 and ref.ref_mge(data) is None:
+        return "KF-C19-MGE-early-terminator / KF-C19-MGE-tokens-after-full"
+    if tool == "rattoppm":
+        if ref.ref_rat(data) is None:
+            return "KF-C19-RAT-run-overshoot (or not a valid encoding)"
+    return None
 
 
 def clause_id(oid):
